@@ -31,9 +31,11 @@
      M3  with a repeated parameter name the last argument wins; M4 a redefinition replaces silently;
          macro names are case-insensitive (lower-cased), parameters are matched as whole symbols;
      M5  "~ { ops }" at a statement position gives the symbol x.. there: unrecognized symbol.
+     C1  "~! { ops }" whose run leaves an EMPTY stack contributes no symbol at all (no error): the
+         operand is then whatever comes next; an empty top item gives the symbol "x".
 
    OUT OF THE MODEL (result Unm):
-     - "~! { ops }" (runs the block on the VM);
+     - "~! { ops }" when the parameter [ct] (the VM) answers Unm;
      - float values (f prefix where the helper accepts one: OP_PUSH1-type, OP_PUSH2, OP_DIV_FLOAT);
      - "@= name [ vals ]" (the bracket form re-tokenises the joined values through get_symbols);
      - OP_WRITE_CACHE d-keys >= 2^40 (the key size is ceil(log2(k+1)/8) in floating point);
@@ -233,6 +235,13 @@ Definition len2_r (v : bytes) : res bytes := if blen v <? 65536 then Ok (len2 v)
 Section Assembler.
   (* floor(math.log2(a)) as computed in floating point (see model/Codec.v, model/Asm.v) *)
   Variable fl2 : Z -> Z.
+  (* "~! { ops }": run_script(code) with the default configuration, then the top stack item:
+       Ok (Some v)  the run ends normally and v = stack.get() (the top item)
+       Ok None      the run ends normally with an EMPTY stack (parse_comptime then adds no symbol)
+       Err          the run raises
+       Unm          the VM model cannot decide
+     (a parameter, so that the assembler does not depend on the VM model) *)
+  Variable ct : bytes -> res (option bytes).
 
   Definition i2b (z : Z) : res bytes := of_opt (int_to_bytes fl2 z).
 
@@ -593,8 +602,9 @@ Section Assembler.
      (M2): every "!=" defines a macro and is removed together with its definition; every
      "~ { ops }" is replaced by the symbol x<hex of assemble(ops)> (the block is assembled with the
      macro table as it is at that point, and definitions inside it stay visible afterwards);
-     "~! { ops }" runs the block on the VM: not modelled.  [asm_rec] is assemble, returning the
-     (possibly extended) macro table as well. *)
+     "~! { ops }" is replaced by x<hex of the top stack item after running assemble(ops)> -- or by
+     nothing at all when the stack is empty (C1) -- through the parameter [ct]; "~" never calls ct.
+     [asm_rec] is assemble, returning the (possibly extended) macro table as well. *)
   Fixpoint comptime (asm_rec : macros -> list string -> res (macros * bytes)) (n : nat)
       (m : macros) (syms : list string) : res (macros * list string) :=
     match syms with
@@ -611,9 +621,13 @@ Section Assembler.
           | ob :: _ =>
             if String.eqb ob "{" then
               rbind (of_opt (find_matching_brace syms "{" "}")) (fun e =>
-                if String.eqb s "~!" then Unm
+                rbind (asm_rec m (firstn (e - 2) (skipn 2 syms))) (fun '(m1, code) =>
+                if String.eqb s "~!" then
+                  (* _, stack, _ = run_script(code); if not stack.empty(): append x<stack.get().hex()> *)
+                  rbind (ct code) (fun top =>
+                  rbind (comptime asm_rec n' m1 (skipn (S e) syms)) (fun '(m2, new) =>
+                    Ok (m2, match top with Some v => String "x" (hex v) :: new | None => new end)))
                 else
-                  rbind (asm_rec m (firstn (e - 2) (skipn 2 syms))) (fun '(m1, code) =>
                   rbind (comptime asm_rec n' m1 (skipn (S e) syms)) (fun '(m2, new) =>
                     Ok (m2, String "x" (hex code) :: new))))
             else Err
@@ -951,7 +965,8 @@ End Assembler.
 (* ---------- self-tests: sources run through the real compiler ----------
    cd /repo && PYTHONPATH=/repo /venv/bin/python -c "from tapescript import parsing as P; ..."
    each [syms] is parsing.get_symbols(source), each result parsing.compile_script(source).hex() *)
-Definition asm_hex (syms : list string) : option string := option_map hex (assemble fl2_exact syms).
+Definition asm_hex (syms : list string) : option string :=
+  option_map hex (assemble fl2_exact (fun _ => Unm) syms).
 
 Local Open Scope string_scope.
 
